@@ -95,6 +95,20 @@ FAMILIES = {
         "vh_cfg": {},
         "tiers": {"quick": {"rand": 48, "rlen": 120, "chunks": 8}, "thorough": {"rand": 1200, "rlen": 200, "chunks": 14}},
     },
+    "auth": {
+        "fix_all": None,
+        "mc": {"module": "Auth", "cfg": {"quick": "Auth-mc.cfg", "thorough": ["Auth-mc.cfg"]}, "timeout": {"quick": 120, "thorough": 300}},
+        "trace_module": "AuthTrace", "trace_cfg": "Auth-trace.cfg",
+        "vh_cfg": {},
+        "tiers": {"quick": {"rand": 1, "rlen": 100000, "chunks": 1}, "thorough": {"rand": 1, "rlen": 100000, "chunks": 1}},
+    },
+    "own": {
+        "fix_all": None,
+        "mc": {"module": "MCOwn", "cfg": {"quick": "Own-mc-quick.cfg", "thorough": ["Own-mc-quick.cfg"]}, "timeout": {"quick": 300, "thorough": 900}},
+        "trace_module": "OwnTrace", "trace_cfg": "Own-trace.cfg",
+        "vh_cfg": {},
+        "tiers": {"quick": {"rand": 300, "rlen": 50, "chunks": 8}, "thorough": {"rand": 6000, "rlen": 60, "chunks": 14}},
+    },
 }
 
 SP_ASSUME = COMMON_ASSUME + [
@@ -271,5 +285,16 @@ PROPS = {
                 "end-block event digest) are compared; non-trivial = every compared step; distinct = distinct observations",
         "assumptions": ["nondeterminism is sampled by double execution, not modelled: the TLA+ part contributes the 2-safety equality formula and its evaluation",
                         "same binary, same machine: architecture-dependent divergence is out of reach"],
+    },
+    "C11": {
+        "families": ["auth", "own"], "formulas": ["C11_Signers", "C11_Routable", "C11_AuthRule", "C11_Own"], "nt": "C11",
+        "bug_variants": [],
+        "rule": "signer clause: every custom message type found in the application's interface registry (45 at the pinned commit), built with "
+                "distinct accounts in every address-typed field, has GetSigners = [creator] and a handler, and through the real ante handler is "
+                "accepted exactly when signed by the creator alone (signature sets: creator, another account, both, an account named in a "
+                "field). Resource clause: random histories of owner-only messages (provider record, claimers, feeds, primary name, block list, "
+                "file deletion, contract post through the wasm binding) sent by owners and by non-owners; non-trivial = every table row and "
+                "delivery, every effective step and every non-owner attempt on an existing resource; distinct = distinct (pre, message, post)",
+        "assumptions": COMMON_ASSUME + ["address-typed fields are recognised by field name", "the wasm clause calls wasmbinding.PerformPostFile directly; no contract is executed"],
     },
 }
